@@ -394,7 +394,7 @@ pub fn check_def() -> PropertyCheck {
   PropertyCheck {
     id: "C15",
     scenarios: vec![Box::new(C15Des), Box::new(C15Threads), Box::new(C15Clones)],
-    runs: (100_000, 12_000_000),
+    runs: (250_000, 12_000_000),
     rule: "DES case = finalize | finalize_threads over a hot subject / cold sync source / failing source, optional pass-through tail, then <=7 triggers (next, complete, error through cloned handles, unsubscribe, guard drop) in any order; thread case = 2-3 threads each issuing complete / error / unsubscribe concurrently on finalize_threads; non-trivial = >=2 triggers or a repeated trigger (DES) / a decision with >1 eligible thread (threads)",
     assumptions: vec!["sequentially consistent execution"],
   }
